@@ -213,6 +213,11 @@ class C06(Prop):
         if m["kind"] == "datagram" and "overflow" in impl and not fails:
             fails.append(("datagram-truncated", "datagram mode: the reader offered less room than a datagram of at most 293 octets needs "
                           "after %d delivered frames: the datagram would be truncated and its frame lost" % len(got)))
+        # stream mode: the reads were cut to fit a buffer of one maximum frame (292 octets) per 249 octets of
+        # fragment plus one; a reader that offers less room cannot take a maximum-size frame (seeded change C01_c)
+        if m["kind"] != "datagram" and "overflow" in impl and not fails:
+            fails.append(("reader-room", "the reader offered less room than a buffer of 292 octets per 249 octets of fragment (+1) has "
+                          "after %d delivered frames: frames that fit the standard's maximum cannot be read" % len(got)))
         # liveness: every intact frame is recovered
         if m.get("must_all") and "overflow" not in impl:
             if got[:len(allowed)] != allowed and not fails:
